@@ -375,6 +375,7 @@ def check_C03(run):
     check_hist_generic(run, [("scan", "scan", 400, 8000, RULE_HIST + "; profile scan: dense key space with many deleted and "
                               "expired keys inside the scanned prefixes, offset 0..5, limit -1..5, regexps"),
                              ("kvdeep", "kvdeep", 120, 2400, RULE_HIST + "; profile kvdeep (multi-level B+ tree)"),
+                             ("scanbin", "scanbin", 150, 3000, RULE_HIST + "; profile scanbin: binary keys and prefixes ending in 0xFF / 0x00"),
                              ("pages", "pages", 40, 600, "paging sweep: for random contents over 7 keys x {live, deleted, expired, "
                               "absent} every (prefix, offset 0..n+1, limit 1..n+1) PrefixScan and offset-0 PrefixSearchScan; the "
                               "harness also concatenates the pages offset=0,limit,2*limit.. and compares with the live keys")])
